@@ -12,7 +12,7 @@ import time
 import z3
 
 from vlib import env
-from vlib.zrun import twin_verdict, explore_and_prove, all_eq, concretize, pyrepr, eq_term
+from vlib.zrun import twin_verdict, explore_and_prove, all_eq, concretize, pyrepr, eq_term, wrapper_exc
 from vlib.zsym import Int, Real, Sym, SymNum, sym_int, model_value
 
 META = {
@@ -152,6 +152,17 @@ else:
     for key in keys:
         if g2.get(key, 0) != exp0[key]:
             bad.append(("permutation", key, g2.get(key, 0), exp0[key]))
+    import numpy as np
+    varr = {kk: np.array([vv], dtype=object) for kk, vv in conc.items()}
+    ga = rsys.rates(dict(varr))
+    for key in keys:
+        v = ga.get(key, 0)
+        v = v[0] if hasattr(v, "__len__") else v
+        if v != exp0[key]:
+            bad.append(("ReactionSystem.rates with array-valued concentrations", key, v, exp0[key]))
+    for kk in conc:
+        if varr[kk][0] != conc[kk]:
+            bad.append(("caller's arrays were modified", kk, varr[kk][0], conc[kk]))
 for b in bad:
     print("MISMATCH %%s key=%%s got=%%s expected=%%s" %% b)
 sys.exit(1 if bad else 0)
@@ -237,7 +248,7 @@ def _viol(o, mode, rxs, ks, conc, keys, cstr, checks, obid):
         vs.append(dict(key="%s:%s" % (obid, "exc" if p.kind == "exc" else "value"),
                        desc="%s: structure %s ks=%s conc=%s%s" % (mode, crx, concretize(m, ks), concretize(m, conc),
                                                                   (" raised %r" % (p.value,)) if p.kind == "exc" else ""),
-                       replay_src=src))
+                       soft=(p.kind == "exc" and wrapper_exc(p.value)), replay_src=src))
     return vs
 
 
@@ -304,6 +315,11 @@ def ob_system(patterns, keys, lo, hi, cstr_keys, twin=False):
         arr = dCdt_list(rsys, list(law_of_mass_action_rates([conc[key] for key in keys], rsys, {})))
         rs2 = ReactionSystem(rxns[::-1], list(keys), checks=())
         gotp = rs2.rates(dict(conc))
+        # array-valued concentrations (a batch of states): the per-reaction contributions are accumulated per substance; mutable
+        # values must not be shared between substances or written back into the caller's arrays
+        varr = {key: np.array([v], dtype=object) for key, v in conc.items()}
+        gota = rsys.rates(dict(varr))
+        arr_state = (gota, varr)
         old = stoich.np
         stoich.np = NPShim()
         try:
@@ -315,12 +331,12 @@ def ob_system(patterns, keys, lo, hi, cstr_keys, twin=False):
         kk = ks if not twin else ([ks[0]] + [2 * x for x in ks[1:]] if len(ks) > 1 else [ks[0] + 1])
         exp = oracle_rates(rxs, kk, conc, keys)
         expc = oracle_rates(rxs, kk, conc, keys, (F, feeds)) if feeds else None
-        return got, gotc, arr, gotp, mats, exp, expc
+        return got, gotc, arr, gotp, mats, exp, expc, arr_state
 
     def goal(p):
         if p.kind == "exc":
             return False
-        got, gotc, arr, gotp, mats, exp, expc = p.value
+        got, gotc, arr, gotp, mats, exp, expc, (gota, varr) = p.value
         pairs = []
         present = set()
         for rx in rxs:
@@ -333,6 +349,10 @@ def ob_system(patterns, keys, lo, hi, cstr_keys, twin=False):
             pairs.append((gotp.get(key, 0), exp[key]))
         for key, v in zip(keys, arr):
             pairs.append((v, exp[key]))
+        for key in keys:
+            v = gota.get(key, 0)
+            pairs.append((v[0] if hasattr(v, "__len__") else v, exp[key]))
+            pairs.append((varr[key][0], conc[key]))
         if gotc is not None:
             for key in keys:
                 pairs.append((gotc.get(key, 0), expc[key]))
